@@ -51,17 +51,21 @@ class MarginLoan(base.Loan):
     def calculate_interest(self, at: datetime.datetime, prices: prices.Prices) -> Dict[str, Decimal]:
         assert at >= self._created_at
 
-        interest = self._conditions.interest_percentage / Decimal(100) * self.borrowed_amount
+        interest = self._conditions.interest_percentage * self.borrowed_amount
+        divisor = Decimal(100)
         if self._conditions.interest_period:
+            # Exact time ratio. Dividing floats yields values like 2.9999999999999996 that later get truncated.
             time_ellapsed = at - self._created_at
-            # Exact ratio. Dividing floats yields values like 2.9999999999999996 that later get truncated.
             microsecond = datetime.timedelta(microseconds=1)
-            interest *= Decimal(time_ellapsed // microsecond) / Decimal(self._conditions.interest_period // microsecond)
+            interest *= Decimal(time_ellapsed // microsecond)
+            divisor *= Decimal(self._conditions.interest_period // microsecond)
 
         # Currency conversion if interest symbol is different from borrowed symbol.
         if self._conditions.interest_symbol != self.borrowed_symbol:
             interest = prices.convert(interest, self._borrowed_symbol, self._conditions.interest_symbol)
 
+        # Dividing last keeps the result exact (10% of 1 during 1/3 of the period at 300 is 10, not 9.99999...).
+        interest /= divisor
         interest = max(interest, self._conditions.min_interest)
         return {self._conditions.interest_symbol: interest}
 
